@@ -1588,6 +1588,9 @@ func compileComprehensionExpr(ctx *blockCtx, v *ast.ComprehensionExpr, twoValue 
 		}
 		names = append(names, forStmt.Value.Name)
 		defineNames = append(defineNames, forStmt.Value)
+		if forStmt.Key == nil && forStmt.Value.Name == "_" {
+			names = nil // for range X (Go rejects `for _, _ := range X`)
+		}
 		cb.ForRange(names...)
 		compileExpr(ctx, forStmt.X)
 		cb.RangeAssignThen(forStmt.TokPos)
